@@ -6,6 +6,8 @@
   Sources modelled (read, not guessed):
     /repo/features/fastreflection/{has,get,set,clear,mutable,new_field,which_oneof,range,list,map,
     proto_message}.go  and their output /repo/testpb/1.pulsar.go;
+    /repo/features/protoc/main.go (`genMessageGetterMethods`, `genMessageBaseMethods`: the plain-Go getters and
+    `Reset()`; op `getter`, `Reflect.getterF` / `Reflect.getterZero`);
     google.golang.org/protobuf@v1.34.0/types/dynamicpb/dynamic.go.
 
   * `Reflect.step`      : IMPL machine.  State = the Go struct (`Val`, nil-vs-empty flags kept, map entries
@@ -36,6 +38,8 @@ inductive ROp
   | mget (j : Nat) (k : Val) | mrange (j : Nat) | size | enc
   | newf (j : Nat)   -- listed with the writes in the protocol, but it never changes the state and the engine
                      -- addresses it through the read path (`Get…`), so it is a read here
+  | getter (j : Nat) -- the plain-Go accessor `x.Get<Field>()` of field `j` (protoc-gen-go `genMessageGetterMethods`;
+                     -- for a oneof member the member getter `x.Get<Member>()`), not a protoreflect call
   deriving Repr, Inhabited
 
 /-- writes (second table, without `newf`) -/
@@ -70,6 +74,8 @@ inductive Out
   | msgv (valid : Bool)                   -- `M1` / `M0`
   | listv (valid : Bool) (len : Nat)      -- `L<valid>:<len>`
   | mapv (valid : Bool) (len : Nat)       -- `P<valid>:<len>`
+  | glist (len : Nat)                     -- `L:<len>`  (`getter`: a Go slice has a length and no validity bit)
+  | gmap (len : Nat)                      -- `P:<len>`  (`getter`: a Go map)
   | which (j : Option Nat)                -- `-` / `j`
   | fields (js : List Nat)                -- `[0,3,7]` (ascending)
   | keys (ks : List Val)                  -- `[b1,b2]` (ascending by key order, flags cleared)
@@ -86,6 +92,14 @@ def outElem (e : Elem) (v : Val) : Out :=
   match e with
   | .scalar k => if k.isBlob then .str v.getBlob else .bits v.getBits
   | .message _ => .msgv (!v.isNone)
+
+/-- a `Get` result rendered in the tokens of the `getter` op: scalars and messages (`M1` = non-nil pointer /
+    valid message) are printed alike; a list/map keeps its length and drops the validity bit, which a plain
+    Go slice/map does not have (`L<valid>:<len>` ↦ `L:<len>`, `P<valid>:<len>` ↦ `P:<len>`). -/
+def Out.asGetter : Out → Out
+  | .listv _ n => .glist n
+  | .mapv _ n => .gmap n
+  | o => o
 
 /-- key token with the (unobservable) nil flag cleared -/
 def normKey (k : Val) : Val := match k with | .blob _ b => .blob false b | x => x
@@ -169,6 +183,35 @@ def getF (f : FieldDesc) (v : Val) : Out :=
                  | _ => outElem f.elem (Elem.zeroVar f.elem))   -- unset, other member, or typed-nil wrapper
   | .repeated _ => if v.elems.isEmpty then .listv false 0 else .listv true v.elems.length
   | .map _ => if v.elems.isEmpty then .mapv false 0 else .mapv true v.elems.length
+
+/-- The generated plain-Go getter on a NON-nil receiver (protoc-gen-go `genMessageGetterMethods`, output in
+    /repo/testpb/1.pulsar.go):
+
+      func (x *A) GetF() T { if x != nil { return x.F }; return <zero> }                 -- singular, list, map
+      func (x *A) GetM() T { if x, ok := x.GetOneof().(*A_M); ok { return x.M }; return <zero> }   -- oneof member
+
+    * singular scalar / message: the struct field itself (a message getter returns the pointer: `M1`/`M0`);
+    * list / map: the Go slice / map itself — nil or allocated, it only has a length (`L:<len>` / `P:<len>`);
+    * oneof member: the type assertion `.(*A_M)` succeeds for ANY wrapper of that type, so for the typed-nil
+      wrapper `(*A_M)(nil)` it succeeds with `x == nil`; since fix 8687e51 the getter tests `ok && x != nil`
+      and returns `<zero>` like `Get` does. Another member active or the interface nil: `<zero>`. -/
+def getterF (f : FieldDesc) (v : Val) : Out :=
+  match f.shape with
+  | .singular => outElem f.elem v
+  | .oneof _ => (match v with
+                 | .one x => outElem f.elem x
+                 | _ => outElem f.elem (Elem.zeroVar f.elem))   -- incl. the typed-nil wrapper (`ok && x != nil`, fix 8687e51)
+  | .repeated _ => .glist v.elems.length
+  | .map _ => .gmap v.elems.length
+
+/-- … and on the nil receiver: `return <zero>` (`0`, `false`, `""`, `nil`, the enum's first value — number 0
+    in proto3). A oneof member getter reaches the same `return` through `x.GetOneof()`, which returns the
+    nil interface for a nil receiver. -/
+def getterZero (f : FieldDesc) : Out :=
+  match f.shape with
+  | .repeated _ => .glist 0
+  | .map _ => .gmap 0
+  | _ => outElem f.elem (Elem.zeroVar f.elem)
 
 /-- `value.X()` unwrapping and conversion to the Go field type (set.go `genField`, list.go
     `genPrefValueToGoValue`); `none` = the type assertion panics. Strings have no nil flag; a `[]byte` keeps
@@ -290,9 +333,8 @@ def read (S : Schema) (i : Nat) (s : Val) (o : ROp) : Out :=
   | .which g =>
     if fs.any (fun f => f.group? == some g) then .which (whichFrom g 0 fs x.slots) else .panic
   | .range =>
-    -- `if x == nil { return }`; a typed-nil wrapper is dereferenced (`case *W: v := o.F`)
+    -- `if x == nil { return }`; a typed-nil wrapper is skipped (`case *W: if o == nil { break }`, fix 424cbe1)
     if s.isNone then .fields []
-    else if s.slots.any isOneNil then .panic
     else .fields (idxFilter hasF 0 fs s.slots)
   | .getu => .unk s.unknown                      -- `if x == nil { return nil }`
   | .valid => .bool (!s.isNone)                  -- `return x != nil`
@@ -338,6 +380,11 @@ def read (S : Schema) (i : Nat) (s : Val) (o : ROp) : Out :=
   | .size => .nat (implSize S mopts (s.depth + 1) i s)
   | .enc => .enc (implMarshal S mopts (s.depth + 1) i s)
   | .newf j => (match fs[j]? with | some f => newF f | none => .panic)   -- never touches `x`
+  | .getter j =>
+    -- no such method for an index out of range; otherwise the `x != nil` test of the getter itself
+    (match fs[j]? with
+     | some f => if s.isNone then getterZero f else getterF f (s.slot j)
+     | none => .panic)
 
 /-- the field-level outcome of a write op on field `f` holding `v` -/
 def writeF (S : Schema) (f : FieldDesc) (v : Val) : WOp → FW
@@ -725,6 +772,9 @@ def read (S : Schema) (i : Nat) (s : Val) (o : ROp) : Out :=
   | .size => .nat (specEncode S (s.depth + 1) i s).length
   | .enc => .enc (encOf S i s)
   | .newf j => (match fs[j]? with | some f => newF f | none => .panic)
+  -- the reference has no generated accessors: the SPEC value of `getter j` is what `Get` returns, rendered
+  -- in the getter's tokens
+  | .getter j => (match fs[j]? with | some f => (getF f (x.slot j)).asGetter | none => .panic)
 
 def writeF (S : Schema) (f : FieldDesc) (v : Val) : WOp → FW
   | .set _ a => setF f a
